@@ -202,7 +202,8 @@ class SubQueryLineageHolder(ColumnLineageMixin):
         qualified_map = {
             str(table): table for table in table_group if isinstance(table, Table)
         }
-        return alias_map | unqualified_map | qualified_map
+        # alias takes precedence: `FROM t1 AS t2 JOIN t2 AS t3`, qualifier t2 refers to t1 instead of table t2
+        return unqualified_map | qualified_map | alias_map
 
     def _get_target_table(self) -> Optional[Union[SubQuery, Table]]:
         table = None
